@@ -224,7 +224,39 @@ func detectZIPFormat(r io.ReaderAt, size int64) (Format, error) {
 		}
 	}
 
-	// Check for Office Open XML markers
+	// Office Open XML: the package's content types name the main part, whatever
+	// other members (embedded objects, leftovers) the archive holds and in
+	// whatever order they are stored.
+	for _, f := range zr.File {
+		if f.Name != "[Content_Types].xml" {
+			continue
+		}
+		rc, err := f.Open()
+		if err != nil {
+			break
+		}
+		data, err := io.ReadAll(io.LimitReader(rc, 1<<20))
+		rc.Close()
+		if err != nil {
+			break
+		}
+		types := string(data)
+		switch {
+		case strings.Contains(types, "wordprocessingml.document.main+xml"),
+			strings.Contains(types, "wordprocessingml.template.main+xml"):
+			return DOCX, nil
+		case strings.Contains(types, "spreadsheetml.sheet.main+xml"),
+			strings.Contains(types, "spreadsheetml.template.main+xml"):
+			return XLSX, nil
+		case strings.Contains(types, "presentationml.presentation.main+xml"),
+			strings.Contains(types, "presentationml.slideshow.main+xml"),
+			strings.Contains(types, "presentationml.template.main+xml"):
+			return PPTX, nil
+		}
+		break
+	}
+
+	// Fallback for packages without usable content types: directory names
 	for _, f := range zr.File {
 		switch {
 		case f.Name == "[Content_Types].xml":
